@@ -29,4 +29,40 @@ PROPS = {
         assumptions=['subject is a valid value of its type (table twin of the generated automaton as kani::assume)',
                      'oracle: RFC 3986 Appendix B regular expression, harness/src/oracle.rs::split_ref'],
     ),
+    'C03': dict(
+        technique='Kani/CBMC bounded model checking of the real authority scanners against an RFC 3986 section 3.2 oracle, SAT-decided over all valid authorities within the bound',
+        level_text='For every valid authority up to the stated byte bound CBMC proves user_info()/host()/port() and parts() equal, as pointer and length, to the section 3.2 split (user info before the @, bracketed IP literal or text up to the next colon, digits after it), presence distinguished from emptiness, each part valid for its own type; bounded.',
+        level_note=BMC_NOTE,
+        outside='authorities longer than the byte bound (12-16 bytes; IPv6 text longer than that is only covered by the grammar side, C01)',
+        stubs=[TABLE_STUB],
+        assumptions=['subject is a valid authority (table twin as kani::assume)', 'oracle: harness/src/oracle.rs::split_auth'],
+    ),
+    'C12': dict(
+        technique='Kani/CBMC bounded model checking of the real segment iterators under a symbolic next/next_back schedule, and of the path queries, against a slash-split oracle',
+        level_text='For every valid path up to the byte bound and every interleaving of front/back steps (one symbolic choice bit per step) CBMC proves each yielded item is exactly the next slash-separated piece from that end (pointer and length), that front and back never cross and the iterator stays exhausted; is_empty/is_absolute/segment_count/first/last/file_name/directory/parent/parent_or_empty agree with that sequence; bounded.',
+        level_note=BMC_NOTE,
+        outside='paths longer than the byte bound (8-12 bytes URI, 7 bytes IRI); normalized_segments().len() is decided by the C09 harnesses',
+        stubs=['IRI paths: byte-level table twin of the char automaton as the validity test (URI paths use the real Path::new)'],
+        assumptions=['oracle: harness/src/oracle.rs::split_path (pieces between slashes after the optional leading slash)',
+                     'parent() of //x is the documented /./ and parent() of a single relative segment is None (as the repository tests state)'],
+    ),
+    'C01': dict(
+        engine='D+K', engine_d='c01',
+        technique='SMT (z3, cvc5 cross-check): inductive equivalence of the automata recovered from the compiler expansion with an RFC-ABNF reference automaton (all lengths) + bounded witness query; Kani/CBMC for the constructor glue',
+        level_text='Language side: for each of the 20 validated types, in two build configurations (automaton cache used / removed), the solver certifies an inductive relation between the generated validate() automaton and a reference DFA compiled by /verif from its own copy of RFC 3986 App. A / RFC 3987 2.2, i.e. equality of the accepted languages for strings of every length, and re-decides it as a bounded query that yields a concrete distinguishing string (replayed against the real constructor) when it fails. Glue side: CBMC shows for every input within the byte bound that each construction route returns Ok exactly when validate accepts, keeps the text (same pointer/bytes) and returns the untouched input in the error; bounded.',
+        level_note='Trusted: rustc expansion printer and the extraction regex (cross-checked natively: table twins vs real constructors on seeded strings every run), the ABNF reference compiler and RFC transcriptions in /verif/engine_d, z3 (cvc5 re-decides the inductive queries in the thorough tier). The inductive queries are unbounded in string length; the glue harnesses are bounded (6-8 bytes).',
+        outside='glue beyond 8 bytes; serde formats other than handing the visitor a str/bytes/String/Vec; a stale incremental artefact in a user target/ directory',
+        stubs=['glue harnesses of the six big-DFA types: validate stubbed by its table twin (same automaton, extracted per run) via #[kani::stub]'],
+        assumptions=['reference grammar: /verif/engine_d/refspec/rfc3986.abnf, rfc3987.abnf; entry productions per engine_d/dfa.py::ENTRIES',
+                     'IRI symbol domain: Unicode scalar values (surrogates excluded)'],
+    ),
+    'C13': dict(
+        engine='D+K', engine_d='c13',
+        technique='SMT (z3): inductive inclusion L(uri::X) in L(iri::X) and L(Uri)=L(UriRef) restricted to first-delimiter-is-colon over the extracted automata (all lengths); Kani/CBMC for every conversion function',
+        level_text='The facts the unchecked URI->IRI and reference->absolute casts rely on are certified by the solver for strings of every length over the automata extracted from the current tree; every as_*/into_*/try_into_*/TryFrom/From conversion is model-checked for all inputs within the byte bound: success condition = oracle condition, success preserves the text, failure returns the original; bounded for the conversions.',
+        level_note='Trusted as C01 for the automata; as the other Kani checks for the conversions. Cross-family identity of resolution is not decided (resolve is out of reach, C06).',
+        outside='conversions on texts beyond the byte bound (8-12 bytes); cross-family agreement of resolution',
+        stubs=[TABLE_STUB, 'Uri::validate / Iri::validate stubbed by their table twins where a conversion calls the checked constructor'],
+        assumptions=['bytes 0-127 identified with the chars U+0000-U+007F'],
+    ),
 }
